@@ -238,12 +238,16 @@ def _chain(sc, out, w):
     w.write_csv("src/f.csv", sc["rows"])
     # reference executor: chain == composition of its stages
     expected = []
+    empty_seen = False
     for j, m in enumerate(members):
         plain = {kk: v for kk, v in m.items() if kk != "modes"}
         if j >= sc["suffix"]:
             if not expected[j - 1]:
-                expected.append(None)  # predecessor collected nothing: see known finding
-                break
+                # predecessor collected nothing (today the run aborts there: known finding); whatever a tree does
+                # instead of aborting, "reads exactly the lines its predecessor collected" means it reads none
+                expected.append([])
+                empty_seen = True
+                continue
             src = f"src/stage{j}.csv"
             _write_default_csv(os.path.join(w.root, src), expected[j - 1])
         else:
@@ -251,7 +255,7 @@ def _chain(sc, out, w):
         cp, printed, lines = ops.standalone(gen.render(plain, src))
         out.runs += 1
         expected.append(_lines_of(lines))
-    empty_pred = None in expected
+    empty_pred = empty_seen
     cs = ops.new_csvpaths()
     with ops.quiet():
         cs.file_manager.add_named_file(name="f", path="src/f.csv")
@@ -266,7 +270,7 @@ def _chain(sc, out, w):
         exc = e
     out.runs += 1
     if exc is not None:
-        j = len(expected) - 1
+        j = next((x for x in range(sc["suffix"], k) if not expected[x - 1]), k - 1)
         out.v(
             "chain_member_raised",
             f"{where}: the run raised {ops.exc_sig(exc)}" + (f" (member m{j} has source-mode preceding and its predecessor collected 0 lines)" if empty_pred else ""),
